@@ -70,22 +70,29 @@ fuzz_target!(|data: &[u8]| {
         }
     });
     if data.is_empty() { return; }
-    let (op, shape) = OPS[(data[0] as usize) % OPS.len()];
+    // VH_FUZZ_OPS=i,j,k restricts the dispatch to those entries of OPS
+    let allowed: Vec<usize> = std::env::var("VH_FUZZ_OPS").ok().map(|v| v.split(',').filter_map(|x| x.parse().ok()).filter(|i| *i < OPS.len()).collect()).unwrap_or_default();
+    let idx = if allowed.is_empty() { (data[0] as usize) % OPS.len() } else { allowed[(data[0] as usize) % allowed.len()] };
+    let (op, shape) = OPS[idx];
     let f = fields(shape, &data[1..]);
     *probe::LAST_PANIC.lock().unwrap_or_else(|e| e.into_inner()) = None;
-    let r = std::panic::catch_unwind(std::panic::AssertUnwindSafe(|| probe::run_op(op, &f)));
+    // like the real workers: a named thread with the default 2 MiB stack (the request path unwraps the thread name;
+    // libFuzzer's own thread has none)
+    let r = std::thread::Builder::new().name("0".to_string()).stack_size(2 * 1024 * 1024)
+        .spawn(move || std::panic::catch_unwind(std::panic::AssertUnwindSafe(|| probe::run_op(op, &f))))
+        .expect("spawn").join().unwrap_or_else(|_| Ok(Err("thread".to_string())));
     let mut finding: Option<String> = None;
     match r {
         Err(_) => {
             let p = probe::LAST_PANIC.lock().unwrap_or_else(|e| e.into_inner()).clone().unwrap_or(("?".into(), "?".into(), 0));
-            finding = Some(format!("panic\t{}\t{}\t{}", op, codec::hex(p.0.as_bytes()), codec::hex(p.1.as_bytes())));
+            finding = Some(format!("panic\t{}\t{}\t{}\t{}", op, codec::hex(p.0.as_bytes()), codec::hex(p.1.as_bytes()), idx));
         }
         Ok(Ok(o)) => {
             if op == "serve" {
                 // fields: result, n_writes, ...
                 let n_writes = String::from_utf8_lossy(o.fields.get(1).map(|v| v.as_slice()).unwrap_or(b"0")).parse::<usize>().unwrap_or(0);
                 if n_writes == 0 {
-                    finding = Some(format!("noresponse\t{}\t-\t-", op));
+                    finding = Some(format!("noresponse\t{}\t-\t-\t{}", op, idx));
                 }
             }
         }
